@@ -11,7 +11,7 @@ import (
 // VerifC05Owner: every (requester, entity) pair for the three owner-only operations. A non-owner is
 // refused (pose: silently dropped), nobody is told anything and a newcomer is handed the unchanged state.
 func VerifC05Owner() {
-	s := newStepWorld(stepShape{mods: vModVikja | vModOdal, symIDs: true})
+	s := newStepWorld(stepShape{mods: vModVikja | vModOdal, symIDs: true, prior: verifnd.Bool()})
 	if s.hasAction {
 		assumeValidTS(s.actSec, s.actNanos)
 	}
